@@ -55,6 +55,13 @@ func (g *certGen) newEntry(power int64) gpbft.PowerEntry {
 	return e
 }
 
+func (g *certGen) newEntryBig(power *big.Int) gpbft.PowerEntry {
+	k, _ := g.backend.GenerateKey()
+	e := gpbft.PowerEntry{ID: g.nextID, Power: bigOf(power), PubKey: k}
+	g.nextID++
+	return e
+}
+
 // evolve returns the next table (canonical order).
 func (g *certGen) evolve() gpbft.PowerEntries {
 	if g.static || g.r.chance(30) {
@@ -113,8 +120,7 @@ func signDecision(backend *signing.FakeBackend, nn gpbft.NetworkName, table gpbf
 
 // minimalQuorum picks signer indices (random order) until a strong quorum is reached; zero-scaled skipped.
 func minimalQuorum(r *rng, table gpbft.PowerEntries) []int {
-	scaled, total, err := table.Scaled()
-	must(err)
+	scaled, total := indepScaled(table) // NOT the implementation's Scaled(): the oracle must not share its arithmetic
 	perm := make([]int, len(table))
 	for i := range perm {
 		perm[i] = i
@@ -131,7 +137,7 @@ func minimalQuorum(r *rng, table gpbft.PowerEntries) []int {
 		}
 		out = append(out, i)
 		pw += scaled[i]
-		if gpbft.IsStrongQuorum(pw, total) {
+		if indepStrong(pw, total) {
 			break
 		}
 	}
